@@ -7,6 +7,39 @@ LEVEL = 'other'
 TITLE = 'C16 substitutions behave as finite maps from parameters to expressions'
 
 
+def reused_is_same_binding(F, S, st, x):
+    """x is a substitution that existed before the request (p, v).  Handing it out is right only if the path condition says that
+    x binds exactly p to v: operator[] of its class, evaluated on x with a fresh query q, splits on `q is T` and answers U, and
+    the path condition makes T the address of p and U the expression v."""
+    cands = [n for n in F.rec if n.endswith('::Elementary_substitution') and n.startswith('ipr::impl')]
+    if len(cands) != 1:
+        return False
+    op = F.final_overrider(cands[0], 'ipr::Substitution::operator[](const ipr::Parameter &) const')
+    if op is None or op not in F.fn:
+        return False
+    Q = ('param', 100)
+    try:
+        res = S.run(op, this=x, args=[Q], state=st.fork())
+    except Unsupported:
+        return False
+    base = len(st.conds)
+    ok_bound = ok_other = False
+    for s2, k2, v2 in res:
+        conds = s2.conds[base:]
+        if k2 != 'return' or len(conds) != 1:
+            return False
+        c, val = conds[0]
+        if not (isinstance(c, tuple) and len(c) == 4 and c[0] == 'op' and c[1] == '==' and ('addr', Q) in (c[2], c[3])):
+            return False
+        T = c[3] if c[2] == ('addr', Q) else c[2]
+        if val:
+            ok_bound = S.truth(('op', '==', T, ('addr', ('param', 0))), st) is True and \
+                (v2 == ('param', 1) or S.truth(('op', '==', ('addr', v2), ('addr', ('param', 1))), st) is True)
+        else:
+            ok_other = v2 == Q
+    return ok_bound and ok_other
+
+
 def run(ck, F):
     ck.explanation = (
         'Elementary_substitution::operator[] is evaluated on the object the factory builds from (parameter p, value v) '
@@ -18,37 +51,51 @@ def run(ck, F):
                 'itself (E1 over {queried is the bound one, is another})', floor=2)
     mk = F.need_fn('ipr::impl::expr_factory::make_elementary_substitution(const ipr::Parameter &, const ipr::Expr &)')
     outs = [o for o in S.run(mk['id']) if o[1] == 'return']
-    if len(outs) != 1:
-        raise AnalysisBroken('make_elementary_substitution is not straight-line')
-    st, _k, v = outs[0]
-    obj = v[1]
-    cls = st.heap[obj[1]].cls
-    op = F.final_overrider(cls, 'ipr::Substitution::operator[](const ipr::Parameter &) const')
-    if op is None or op not in F.fn:
-        raise AnalysisBroken('Elementary_substitution::operator[] not found')
-    f = F.fn[op]
-    Q = ('param', 100)
-    res = S.run(op, this=obj, args=[Q], state=st.fork())
-    base = len(st.conds)
-    cases = {}
-    for s2, k2, v2 in res:
-        conds = s2.conds[base:]
-        if k2 != 'return' or len(conds) != 1:
-            cases['?'] = f'{k2} under {len(conds)} conditions'
+    if not outs:
+        raise AnalysisBroken('make_elementary_substitution never returns')
+    op = None
+    for pi, (st, _k, v) in enumerate(outs):
+        tag = '' if len(outs) == 1 else f' [path {pi}: {contracts.render_conds(st.conds, st, {})[:100]}]'
+        # the substitution handed out must be one built here from (p, v): an object that existed before (the last one made, a
+        # cached one) has a binding of its own, which the request cannot know
+        obj0 = v[1] if isinstance(v, tuple) and v and v[0] == 'addr' else v
+        if not (isinstance(obj0, tuple) and obj0 and obj0[0] == 'obj' and obj0[1] in st.heap) and reused_is_same_binding(F, S, st, obj0):
+            ck.ok(R, 'operator[](bound parameter)' + tag)
+            ck.ok(R, 'operator[](other parameter)' + tag)
             continue
-        c, val = conds[0]
-        # c must be the identity test &Q == &P0 (either order)
-        ident = c in (('op', '==', ('addr', Q), ('addr', ('param', 0))), ('op', '==', ('addr', ('param', 0)), ('addr', Q)))
-        if not ident:
-            cases['?'] = 'the case split is not the identity of the queried and the bound parameter: ' + contracts.render(c, s2, {})
+        if not (isinstance(obj0, tuple) and obj0 and obj0[0] == 'obj' and obj0[1] in st.heap):
+            ck.fail(R, 'operator[](bound parameter)' + tag, 'make_elementary_substitution(p, v) hands out `' + contracts.render(v, st, {})[:80]
+                    + '`, a substitution that existed before the request: whatever it binds, it was not built from (p, v), and applied to its '
+                    'own parameter it does not leave that parameter unchanged', loc=mk['loc'], fn=mk['id'])
             continue
-        cases['bound' if val else 'other'] = v2
-    ck.check(R, 'operator[](bound parameter)', cases.get('bound') == ('param', 1),
-             f'applying an elementary substitution [p -> v] to p yields `{contracts.render(cases.get("bound"), st, {}) if "bound" in cases else cases}` '
-             f'(P0 = p, P1 = v), expected v', loc=f['loc'], fn=op)
-    ck.check(R, 'operator[](other parameter)', cases.get('other') == Q,
-             f'applying an elementary substitution [p -> v] to another parameter q yields `{contracts.render(cases.get("other"), st, {}) if "other" in cases else cases}` '
-             f'(P0 = p, P1 = v, P100 = q), expected q itself', loc=f['loc'], fn=op)
+        obj = v[1]
+        cls = st.heap[obj[1]].cls
+        op = F.final_overrider(cls, 'ipr::Substitution::operator[](const ipr::Parameter &) const')
+        if op is None or op not in F.fn:
+            raise AnalysisBroken('Elementary_substitution::operator[] not found')
+        f = F.fn[op]
+        Q = ('param', 100)
+        res = S.run(op, this=obj, args=[Q], state=st.fork())
+        base = len(st.conds)
+        cases = {}
+        for s2, k2, v2 in res:
+            conds = s2.conds[base:]
+            if k2 != 'return' or len(conds) != 1:
+                cases['?'] = f'{k2} under {len(conds)} conditions'
+                continue
+            c, val = conds[0]
+            # c must be the identity test &Q == &P0 (either order)
+            ident = c in (('op', '==', ('addr', Q), ('addr', ('param', 0))), ('op', '==', ('addr', ('param', 0)), ('addr', Q)))
+            if not ident:
+                cases['?'] = 'the case split is not the identity of the queried and the bound parameter: ' + contracts.render(c, s2, {})
+                continue
+            cases['bound' if val else 'other'] = v2
+        ck.check(R, 'operator[](bound parameter)' + tag, cases.get('bound') == ('param', 1),
+                 f'applying an elementary substitution [p -> v] to p yields `{contracts.render(cases.get("bound"), st, {}) if "bound" in cases else cases}` '
+                 f'(P0 = p, P1 = v), expected v', loc=f['loc'], fn=op)
+        ck.check(R, 'operator[](other parameter)' + tag, cases.get('other') == Q,
+                 f'applying an elementary substitution [p -> v] to another parameter q yields `{contracts.render(cases.get("other"), st, {}) if "other" in cases else cases}` '
+                 f'(P0 = p, P1 = v, P100 = q), expected q itself', loc=f['loc'], fn=op)
 
     # ---------------------------------------------------------------- general substitution
     RG = ck.rule('C16.general', 'a general substitution looks the queried parameter up by address, yields the stored expression '
